@@ -88,7 +88,7 @@ def build_files(tree, labels, root, style, early):
                 lines.append(f"systemLog('{name}-mid')")
             lines.append(line)
         if early == name:
-            lines.append('return')
+            lines.append("return 'early-" + name + "'")   # a return WITH a value inside an included script ends only that script
         if style == 'in-function' and name == 'n0' and kids:
             # the root's includes sit inside a function body: included scripts still run in GLOBAL scope
             inc = lines[2:]
